@@ -2569,6 +2569,11 @@ func (c *connection) read(conn net.Conn, buf *lib.Buffer) (*lib.Buffer, error) {
 
 		l := int(binary.BigEndian.Uint32(buf.B[2:6]))
 
+		if l < 8 {
+			// the declared length includes the 8 bytes of the header
+			return nil, fmt.Errorf("received malformed message (declared length %d is less than the header length)", l)
+		}
+
 		if c.node_maxmessagesize > 0 && l > c.node_maxmessagesize {
 			return nil, fmt.Errorf("received too long message (len: %d, limit: %d)", l, c.node_maxmessagesize)
 		}
